@@ -155,3 +155,46 @@ pub fn const_elseif_flag_chains(u: &Universe, ns: wowm_model::resolve::Ns) -> Ve
     }
     out
 }
+
+
+impl Corpus {
+    /// frames of messages that consist of a u32 count and an array of that many fixed-size integers, with bodies of
+    /// (about) the requested sizes: the only way to reach bodies above 64 KiB (3-byte Wrath header with bits 16..22 used)
+    pub fn counted_array_frames(&self, ns: wowm_model::resolve::Ns, dir: wowm_model::frame::Direction, body_sizes: &[usize]) -> Vec<(String, Vec<u8>)> {
+        use wowm_model::ast::{ArraySize, Member, TypeRef};
+        let mut out = Vec::new();
+        for e in self.entries.iter().filter(|e| e.ns == ns && e.dir == dir) {
+            let Some(c) = self.u.objects[e.obj].container() else { continue };
+            if self.u.objects[e.obj].tags.is_true("compressed") || c.members.len() != 2 {
+                continue;
+            }
+            let (Member::Field(a), Member::Field(b)) = (&c.members[0], &c.members[1]) else { continue };
+            let TypeRef::Simple { name: cty, upcast: None } = &a.ty else { continue };
+            if cty != "u32" || a.value.is_some() {
+                continue;
+            }
+            let TypeRef::Array { inner, size: ArraySize::Variable(v) } = &b.ty else { continue };
+            if *v != a.name || b.tags.is_true("compressed") {
+                continue;
+            }
+            let w = match inner.as_str() {
+                "u8" => 1,
+                "u16" => 2,
+                "u32" => 4,
+                "u64" => 8,
+                _ => continue,
+            };
+            for bs in body_sizes {
+                let n = bs.saturating_sub(4) / w;
+                let mut body = (n as u32).to_le_bytes().to_vec();
+                body.extend(std::iter::repeat(0x11u8).take(n * w));
+                if let Some(mut h) = wowm_model::frame::header(e, body.len()) {
+                    h.extend_from_slice(&body);
+                    out.push((e.name.clone(), h));
+                }
+            }
+            break;
+        }
+        out
+    }
+}
